@@ -194,7 +194,9 @@ static std::string handle(const std::vector<std::string>& a) {
         case VariantType::Int32: case VariantType::Int64: s = bits12s(va, vb.as<long long>()); break;
         case VariantType::Uint32: case VariantType::Uint64: s = bits12s(va, vb.as<unsigned long long>()); break;
         case VariantType::Float: s = bits12s(va, vb.as<float>()); break;
+#if ARDUINOJSON_USE_DOUBLE
         case VariantType::Double: s = bits12s(va, vb.as<double>()); break;
+#endif
         case VariantType::LinkedString: case VariantType::OwnedString: {
           JsonString js = vb.as<JsonString>();
           std::string str(js.c_str(), js.size());
